@@ -111,7 +111,7 @@ def runChk (s : St) (ws : List String) : String :=
       s!"{head} clause=b judge=ok corr=- n1={us.length} n2={rs.length} mode={mode}{kind} skipped=rootless"
     else
     let ok := judgeB keep emptyRoot s.qfree us rs
-    s!"{head} clause=b judge={verdict ok s!"range-{mode}{kind} expected={exp.length} got={rs.length}"} corr=- n1={us.length} n2={rs.length} mode={mode}{kind} wild={s.wild}"
+    s!"{head} clause=b judge={verdict ok s!"range-{mode}{kind} expected={exp.length} got={rs.length}"} corr=- n1={us.length} n2={rs.length} mode={mode}{kind} wild={s.wild} qfree={s.qfree}"
   | ["c", a, b] =>
     if isMStream s a || isMStream s b then
       let x := getM s a; let y := getM s b
@@ -150,7 +150,7 @@ def step (s : St) (line : String) : IO St := do
   | ["text"] => return { s with text := #[] }
   | ["query", h] =>
     let bs := unhexBytes h
-    return { s with wild := wildRoot bs, qfree := !(bs.any fun c => c == 42 || c == 43 || c == 63) }
+    return { s with wild := wildRoot bs, qfree := !(bs.any fun c => c == 42 || c == 43 || c == 63 || c == 91) }
   | ["stream", n] => return { s with cur := n, curM := #[], curC := #[], inStream := true }
   | "m" :: ws => match parseM ws with
     | some m => return { s with curM := s.curM.push m }
